@@ -4,7 +4,7 @@
 From Coq Require Import List ZArith Bool.
 From Coq.Strings Require Import Byte.
 Import ListNotations.
-From SV Require Import Text G_attr C18_Model C18_Heap C18_Lemmas C18_Good C18_HeapLemmas C18_HeapOps C18_Refine C18_Obj C18_ObjLemmas C18_ObjIso C18_ObjElems G_c18_str C18_Conv C18_ObjMore C18_ObjTotal.
+From SV Require Import Text G_attr C18_Model C18_Heap C18_Lemmas C18_Good C18_HeapLemmas C18_HeapOps C18_Refine C18_Obj C18_ObjLemmas C18_ObjIso C18_ObjElems G_c18_str C18_Conv C18_ObjMore C18_ObjTotal C18_ObjSlice.
 
 (* --- Attr/Meta as a mapping: get after set (the stored value is the recursively converted one) --- *)
 Theorem C18_get_set_same : forall g kvs k v, is_attr g = true ->
@@ -525,3 +525,37 @@ Theorem C18_obj_copy_succeeds : forall pre l, let s := oexec pre oinit in
   l < length (fst s) -> exists h' l', graph_copy (fst s) l = Some (h', l').
 Proof. exact copy_succeeds. Qed.
 Print Assumptions C18_obj_copy_succeeds.
+
+(* SLICING SHARES METADATA BY DESIGN (seq.py:316-330, 447-498): seq[a:b] is a NEW sequence (upper-cased residues of the slice) whose
+   metadata is a NEW top-level Meta holding the SAME item values as the origin -- so the FeatureList meta.fts and every nested
+   metadata object of the slice ARE the ones of the origin (only an absent id is added) *)
+Theorem C18_obj_slice_shares_meta : forall i a b j q s s' r l c, ostep (OPure i (PSlice a b) j q) s = inl (s', r) ->
+  onav_pure (fst s) (oreg s j) q = Some (HRef l) -> nth_error (fst s) l = Some c -> ocls c = KSeq ->
+  exists d m mc lnew mnew cnew mcnew,
+    seq_data c = Some d /\ aget kmeta (ofs c) = Some (HRef m) /\ nth_error (fst s) m = Some mc /\
+    r = HRef lnew /\ nth_error (fst s') lnew = Some cnew /\ ocls cnew = KSeq /\
+    seq_data cnew = Some (upper (slice_py d a b)) /\ aget kmeta (ofs cnew) = Some (HRef mnew) /\
+    length (fst s) <= mnew /\ length (fst s) <= lnew /\
+    nth_error (fst s') mnew = Some mcnew /\ ocls mcnew = KMeta /\
+    ofs mcnew = (if amem kid (ofs mc) then ofs mc else aset kid (HStr []) (ofs mc)).
+Proof. exact slice_shares_meta. Qed.
+Print Assumptions C18_obj_slice_shares_meta.
+
+Theorem C18_obj_slice_shares_fts : forall i a b j q s s' r l c, ostep (OPure i (PSlice a b) j q) s = inl (s', r) ->
+  onav_pure (fst s) (oreg s j) q = Some (HRef l) -> nth_error (fst s) l = Some c -> ocls c = KSeq ->
+  exists m mc lnew mnew cnew mcnew,
+    aget kmeta (ofs c) = Some (HRef m) /\ nth_error (fst s) m = Some mc /\ r = HRef lnew /\ nth_error (fst s') lnew = Some cnew /\
+    aget kmeta (ofs cnew) = Some (HRef mnew) /\ mnew <> m /\ nth_error (fst s') mnew = Some mcnew /\
+    forall k, k <> kid -> aget k (ofs mcnew) = aget k (ofs mc).
+Proof. exact slice_shares_fts. Qed.
+Print Assumptions C18_obj_slice_shares_fts.
+
+(* an in-place transformation (reverse, complement, rc, str.lower/upper, += literal) of a SEQUENCE changes exactly its residues:
+   same object, same class, same metadata object, nothing else in the store changes *)
+Theorem C18_obj_inplace_seq_effect : forall d f j q s s' r l c, ostep (OInpl d f j q) s = inl (s', r) ->
+  onav_pure (fst s) (oreg s j) q = Some (HRef l) -> nth_error (fst s) l = Some c -> ocls c = KSeq ->
+  exists g dat, seq_fn f = Some g /\ seq_data c = Some dat /\
+    nth_error (fst s') l = Some (set_slot c kdata (HStr (g dat))) /\
+    length (fst s') = length (fst s) /\ forall x, x <> l -> nth_error (fst s') x = nth_error (fst s) x.
+Proof. exact inplace_seq_effect. Qed.
+Print Assumptions C18_obj_inplace_seq_effect.
